@@ -155,6 +155,7 @@ class PRQLParser(parser.Parser):
             func = func_builder([args])
         else:
             self.raise_error(f"Unsupported aggregation function {name}")
+            return None
         if alias:
             return self.expression(exp.Alias(this=func, alias=alias))
         return func
